@@ -76,6 +76,22 @@ CHECKS = {
               "final CorrFunc with fresh caches."),
         ref="5.C07", technique="Lean 4 invariant proof over a cache state machine with generated reuse rule + history correspondence",
         note="pickle round trip and program-order file writes trusted; in-memory state of the process is observed only through the final result"),
+    "C09": dict(
+        text=("Theorems about a transition system of catalog creation (reader, bounded queue to the writer process, "
+              "worker pool, writer with error pipe, finalisation) whose guards are GENERATED flags read off the source "
+              "(finalise only on clean exit, overwrite only catalog caches, expected patch count, writer terminated on "
+              "error, writer error forwarded, bounded queue): an invariant of 15 clauses holds in every reachable state "
+              "for every fault position (reader / worker at chunk k, writer at start / in the loop / at finalisation, "
+              "writer killed); progress: every non-final state has a successor (NO HANG: the parent never blocks on a "
+              "full queue whose consumer is dead and never joins a writer that cannot exit); a decreasing measure bounds "
+              "every execution; outcome: the run ends raised iff a fault occurred, the completion marker (patch id "
+              "list) is written iff no fault occurred; sequential and parallel runs agree; path rule: an existing path "
+              "is only removed when it is a catalog cache and overwrite was requested. Tie: generated flags + AST pins "
+              "of write_patches / write_patches_unthreaded / WriterProcess / CatalogWriter; real creations with every "
+              "fault kind x chunk position x 1/2/4 workers in bounded subprocesses, directory hashes before/after, "
+              "and re-opening of what a failed creation left."),
+        ref="5.C09", technique="Lean 4 invariant + progress + termination proof over a creation transition system with generated guards + fault-injection correspondence",
+        note="SIGTERM delivery, pipe/queue transport and process exit are OS behaviour (modelled as transitions); a 60 s bound stands for 'hang'"),
     "C10": dict(
         text=("Theorems (all edge arrays, both closed sides, every rational redshift incl. exact edge values): the "
               "tree bin assignment built from the generated np.digitize arguments and keep-range equals the closed-side "
